@@ -5,7 +5,7 @@
    Stack depth and wall-clock time are runtime and are searched by the correspondence streams of vlib/checks/c01.py. *)
 From Coq Require Import List Bool NArith ZArith Arith.
 From SliceV Require Import Gen.PanicSites Driver.PanicInventory Syntax.Lexer Syntax.LexerProofs Doc.Comment Doc.CommentProofs
-  Sema.Resolve Sema.ResolveProofs Base.Bytes Codec.Wire Codec.Reply Codec.ReplyProofs Prep.PrepCore Prep.PrepCoreProofs.
+  Syntax.Parser Syntax.ParserTotal Sema.Resolve Sema.ResolveProofs Base.Bytes Codec.Wire Codec.Reply Codec.ReplyProofs Prep.PrepCore Prep.PrepCoreProofs.
 Import ListNotations.
 Local Open Scope nat_scope.
 
@@ -14,6 +14,12 @@ Proof. exact inventory_complete. Qed.
 (* the Slice lexer takes at most one step per character: any fuel beyond the length of the block gives the same result *)
 Theorem C01_lexer_total : forall fuel k attr cur s, length s < fuel -> lex_block (fuel + k) attr cur s = lex_block fuel attr cur s.
 Proof. exact lex_block_total. Qed.
+(* the parser's recursion is bounded by the number of tokens, on every token sequence, well-formed or not: with the fuel it is
+   given (tokens + 2) no production reports out-of-fuel, every production returns with no more tokens than it received *)
+Theorem C01_parser_total : forall fuel s, n s + 1 <= fuel -> ok_res 0 s (p_file fuel s).
+Proof. exact p_file_ok. Qed.
+Theorem C01_parse_total : forall blocks, parse_blocks blocks <> PErr_ PeFuel.
+Proof. exact parse_blocks_total. Qed.
 (* the doc-comment parser always returns a comment or a lexical/syntax error *)
 Theorem C01_comment_parser_total : forall lines, parse_comment lines <> Err PFuel.
 Proof. exact parse_comment_total. Qed.
